@@ -107,13 +107,13 @@ def run(ctx):
     if cfg == 'P':
         return
     G = [
-        ('varint-prefix', 'VarInt as MlsDecode::mls_decode', '>=', r'Shr const 6', r'^const 3$', 'InvalidVarIntPrefix'),
+        ('varint-prefix', 'VarInt as MlsDecode::mls_decode', '>=', r'^\(MlsDecode::mls_decode\(reader\) Shr const 6\)$', r'^const 3$', 'InvalidVarIntPrefix'),
         ('varint-minimal', 'VarInt as MlsDecode::mls_decode', '!=', r'count_bytes_to_encode_int', r'.', 'VarIntMinimumLengthEncoding'),
         ('varint-range', 'mls_rs_codec|<varint::VarInt as std::convert::TryFrom<u32>>::try_from', '>', r'^n$', r'VarInt::MAX', 'VarIntOutOfRange'),
-        ('length-prefix-within-input', 'iter::mls_decode_split_on_collection', '>', r'mls_decode\(reader\)', r'::len\(reader\)', 'UnexpectedEOF'),
-        ('vec-zero-progress', 'Vec as MlsDecode::mls_decode::{closure#0}', '==', r'::len\(data\)', r'::len\(data\)', 'InvalidContent'),
-        ('hashmap-zero-progress', 'HashMap as MlsDecode::mls_decode::{closure#0}', '==', r'::len\(data\)', r'::len\(data\)', 'InvalidContent'),
-        ('btreemap-zero-progress', 'BTreeMap as MlsDecode::mls_decode::{closure#0}', '==', r'::len\(data\)', r'::len\(data\)', 'InvalidContent'),
+        ('length-prefix-within-input', 'iter::mls_decode_split_on_collection', '>', r'^MlsDecode::mls_decode\(reader\)$', r'^\[T\]::len\(reader\)$', 'UnexpectedEOF'),
+        ('vec-zero-progress', 'Vec as MlsDecode::mls_decode::{closure#0}', '==', r'^\[T\]::len\(data\)$', r'^\[T\]::len\(data\)$', 'InvalidContent'),
+        ('hashmap-zero-progress', 'HashMap as MlsDecode::mls_decode::{closure#0}', '==', r'^\[T\]::len\(data\)$', r'^\[T\]::len\(data\)$', 'InvalidContent'),
+        ('btreemap-zero-progress', 'BTreeMap as MlsDecode::mls_decode::{closure#0}', '==', r'^\[T\]::len\(data\)$', r'^\[T\]::len\(data\)$', 'InvalidContent'),
         ('hashmap-duplicate-key', 'HashMap as MlsDecode::mls_decode::{closure#0}', 'truth', r'is_some\(\w*::insert\(', None, 'InvalidContent'),
         ('btreemap-duplicate-key', 'BTreeMap as MlsDecode::mls_decode::{closure#0}', 'truth', r'is_some\(\w*::insert\(', None, 'InvalidContent'),
         ('leaf-index-bound', 'LeafIndex as TryFrom::try_from', '>', r'^value$', r'16777215|MAX_LEAF', 'InvalidTreeIndex'),
@@ -122,7 +122,7 @@ def run(ctx):
         ctx.check('GUARD', name, lambda P_, fq=fq, rel=rel, a=a, b=b, err=err: guard(P_, fq, rel, a, b, err), floor=1)
     # length check dominates the split
     ctx.check('GUARD', 'length-prefix-dominates-split',
-              lambda P_: guard(P_, 'iter::mls_decode_split_on_collection', '>', r'mls_decode\(reader\)', r'::len\(reader\)',
+              lambda P_: guard(P_, 'iter::mls_decode_split_on_collection', '>', r'^MlsDecode::mls_decode\(reader\)$', r'^\[T\]::len\(reader\)$',
                                'UnexpectedEOF', dominates_rx=r'::split_at$'), floor=1)
     # codec error variants must stay constructible from the decoders (cheap canary for a deleted check)
     def codec_errs(P_):
